@@ -35,7 +35,9 @@ AL = ["'", '"', "a", "b", " ", ".", ",", "*", "_", "`", "\n", "1", "-", "(", ")"
       "![i'](s)", "[l'](u \"t'\")", "**", "«", " ", "0\"", "’",
       # letters of the replaceable patterns written as character references / escapes, next to protected literals
       "(&#99;)", "(&#x43;)", "(&#116;m)", "(t&#109;)", "(&#82;)", "(&#x72;)", "`(c)`", "`(tm)`", "\\(c)", "(c\\)", "&#40;c)", "+&#45;", "&#46;..", "-&#45;",
-      "<!-- (c) -->", "`(r)`"]
+      "<!-- (c) -->", "`(r)`",
+      # escapes next to the other characters of a replaceable pattern, behind plain text (pending text in the inline state)
+      "5\\+-3", "a\\+-", "+\\-", "a \\.\\.\\.", "..\\.", "a-\\-", "a\\--", "x\\(c)", "x(c\\)", "x\\(tm\\)", "a\\?..", "a,\\,", "a!\\!!!", "b\\...."]
 QS = ["“”‘’", "«»„“", ["<<", ">>", "<", ">"], ["", "", "", ""], ["«\xa0", "\xa0»", "‹\xa0", "\xa0›"], ["abc", "d", "", "efgh"],
       "\"\"''"]
 
@@ -155,14 +157,18 @@ def run(ctx: Ctx) -> None:
             ctx.count((s, tuple(rules), str(qs), preset), nontrivial=bool(ch or ch2))
             # opacity: a character written as a numeric reference is invisible to the replacements rule — rendering with every
             # such reference pointed at U+E000 instead, then putting the original characters back, gives the same output
-            if "&#" in s and "replacements" in rules:
-                refs = list(re.finditer(r"&#(?:[xX]([0-9a-fA-F]{1,6})|([0-9]{1,7}));", s))
+            if ("&#" in s or "\\" in s) and "replacements" in rules:
+                opaque_re = r"&#(?:[xX]([0-9a-fA-F]{1,6})|([0-9]{1,7}));|\\([!-/:-@\[-`{-~])"
+                refs = list(re.finditer(opaque_re, s))
                 origs = []
                 for m_ in refs:
+                    if m_.group(3):
+                        origs.append(m_.group(3))
+                        continue
                     cp = int(m_.group(1), 16) if m_.group(1) else int(m_.group(2))
                     origs.append(chr(cp) if 0x20 < cp < 0x7f else None)
                 if refs and all(o is not None for o in origs) and "\ue000" not in s:
-                    s2 = re.sub(r"&#(?:[xX][0-9a-fA-F]{1,6}|[0-9]{1,7});", "&#xE000;", s)
+                    s2 = re.sub(opaque_re, "&#xE000;", s)
                     try:
                         mdr = opq.get(preset)
                         if mdr is None:
@@ -175,7 +181,7 @@ def run(ctx: Ctx) -> None:
                         back = re.sub("\ue000", lambda _m: {"&": "&amp;", "<": "&lt;", ">": "&gt;", '"': "&quot;"}.get((c_ := next(it_)), c_), o2)
                         ctx.count((s, "opacity", preset), nontrivial=True)
                         if back != o1:
-                            ctx.fail("entity-rewritten", "a character written as a numeric reference took part in a typographic replacement",
+                            ctx.fail("entity-rewritten", "a character written as a numeric reference or backslash escape took part in a typographic replacement",
                                      {"input": s, "preset": preset, "rules": ["replacements"], "with_refs": o1[:300], "opaque_twin": back[:300]})
             if len(ctx.samples) < 3 and ch2:
                 ctx.sample({"input": s[:60], "quotes": str(qs), "rules": rules})
